@@ -1414,6 +1414,18 @@ def corpus() -> list[dict]:
             {"name": "web.meta.json", "payload": {"t": "meta", "gen": 4}},
             {"name": "manifest.json", "link": "fifo"},
             {"name": "manifest.json", "payload": {"t": "manifest", "fields": {"version": 1, "timestamp": "t", "namespace": "n", "deployment_count": 2, "encrypted": True}}}]},
+        # two clear secrets / two encrypted secrets / encrypted then clear for one name: the last one is restored
+        {"kind": "hostile", "rpw": "pw", "members": [
+            {"name": "manifest.json", "payload": {"t": "manifest", "fields": {"version": 1, "timestamp": "t", "namespace": "n", "deployment_count": 3, "encrypted": False}}},
+            {"name": "a.secret.yaml", "payload": {"t": "yaml", "obj": {"K": "first"}}},
+            {"name": "b.secret.enc", "payload": {"t": "enc", "pw": "pw", "obj": {"K": "first"}, "salt": [7] * 16, "nonce": [8] * 12}},
+            {"name": "c.secret.enc", "payload": {"t": "enc", "pw": "pw", "obj": {"K": "first"}, "salt": [7] * 16, "nonce": [9] * 12}},
+            {"name": "a.yaml", "payload": {"t": "yaml", "obj": {"i": 1}}},
+            {"name": "b.yaml", "payload": {"t": "yaml", "obj": {"i": 2}}},
+            {"name": "c.yaml", "payload": {"t": "yaml", "obj": {"i": 3}}},
+            {"name": "a.secret.yaml", "payload": {"t": "yaml", "obj": {"K": "second"}}},
+            {"name": "b.secret.enc", "payload": {"t": "enc", "pw": "pw", "obj": {"K": "second"}, "salt": [7] * 16, "nonce": [10] * 12}},
+            {"name": "c.secret.yaml", "payload": {"t": "yaml", "obj": {"K": "second"}}}]},
         # the same kind of archive read under another password / none: the encrypted member stops the read wherever it stands
         {"kind": "hostile", "rpw": "pW", "members": [
             {"name": "manifest.json", "payload": {"t": "manifest", "fields": {"version": 1, "timestamp": "t", "namespace": "n", "deployment_count": 1, "encrypted": False}}},
@@ -1476,7 +1488,7 @@ def run(env: Env) -> Outcome:
     cases += corpus()
     cases += c33_clean.clean_corpus()
     try:
-        _SERVICE[:] = [c33_clean.Service()]
+        _SERVICE[:] = [c33_clean.get_service()]
         cases += c33_clean.service_corpus()
     except Exception as e:  # the service module moved / needs something new: said, not hidden; the archive layer is checked regardless
         _SERVICE[:] = [None]
